@@ -664,7 +664,10 @@ func c05GenOps(r *Rand, n int, mode int) []c05Op {
 		case 1:
 			return r.Pick(0, 1, 16, 17, 18, 100, 254, 255, r.Range(0, 255), r.Range(17, 255), 256)
 		case 2:
-			return r.Pick(4*r.Intn(76), 4*r.Intn(8), 0, 4, 256, 260, 300, r.Intn(300))
+			return r.Pick(4*r.Intn(76), 4*r.Intn(8), 0, 4, 256, 260, 300, r.Intn(300), r.Pick(301, 304, 1024, 1500))
+		}
+		if r.Chance(1, 40) { // beyond the property's 0-300: still must not break anything
+			return r.Pick(301, 304, 1024, 1500)
 		}
 		return c05Lens[r.Intn(len(c05Lens))]
 	}
